@@ -401,6 +401,72 @@ def nodes_of(S, bv, bi):
     return [n.idx for n in S.nodes if n.ctx.bv is bv and n.bi == bi and n.idx in S.live]
 
 
+def _option_flag(rv, rbi):
+    """The report-once flag carried as `Option<SystemTime>` (Some = still to report, with the finish time as payload):
+    -> (edges under which it is Some, sites that assign Some(..), sites that assign None or take() it), or None when the
+    body has no such local or it is defined in a way this rule does not read."""
+    cands = []
+    for l, loc in enumerate(rv.locals):
+        if not loc.get("u") or not rv.crate.types[loc["t"]]["s"].startswith("std::option::Option<std::time::SystemTime>"):
+            continue
+        edges = []
+        for sb in sorted(rv.reach0):
+            sub = rv.switch_subject(sb)
+            if sub is None or sub[0].get("p"):
+                continue
+            hit = sub[0]["l"] == l
+            if not hit:
+                # `if let Some(t) = flag.take()`: the tested value is what take() handed out of this local
+                for (dbi, dsi, kind, x) in rv.defs.get(sub[0]["l"], []):
+                    if kind == "call" and lib.norm(x.get("callee") or "").endswith("Option::<T>::take") and any(
+                            s_["k"] == "assign" and s_["r"]["k"] == "ref" and s_["r"].get("m") and s_["r"]["p"]["l"] == l and not s_["r"]["p"].get("p") for s_ in rv.blocks[dbi]["s"]):
+                        hit = True
+            if hit:
+                si = guards.switch_info(rv, sb)
+                edges += [(sb, b) for b in rv.succ[sb] if si.edge_names(rv, b) == ["Some"]]
+        if edges and rv.dominated_by_edge(rbi, edges):
+            cands.append((l, edges))
+    if len(cands) != 1:
+        return None
+    U, edges = cands[0]
+    sites_true, resets = [], []
+    seen = set()
+
+    def defs_of(l):
+        if l in seen:
+            return True
+        seen.add(l)
+        for (bi, si_, kind, x) in rv.defs.get(l, []):
+            if bi not in rv.reach0:
+                continue
+            if kind == "call":
+                return False
+            if x["k"] == "agg" and x.get("ak") == "adt" and x.get("vn") == "Some":
+                sites_true.append((rv, bi, None))
+            elif x["k"] == "agg" and x.get("ak") == "adt" and x.get("vn") == "None":
+                resets.append(bi)
+            elif x["k"] == "use" and (x["o"].get("m") or x["o"].get("c")) is not None and not (x["o"].get("m") or x["o"].get("c")).get("p"):
+                if not defs_of((x["o"].get("m") or x["o"].get("c"))["l"]):
+                    return False
+            else:
+                return False
+        return True
+
+    if not defs_of(U) or not sites_true:
+        return None
+    # `U.take()` / `mem::take(&mut U)` / `replace`: clears it where it stands
+    for bi in sorted(rv.reach0):
+        for s_ in rv.blocks[bi]["s"]:
+            if s_["k"] == "assign" and s_["r"]["k"] == "ref" and s_["r"].get("m") and s_["r"]["p"]["l"] == U and not s_["r"]["p"].get("p"):
+                t = rv.blocks[bi]["t"]
+                nm = lib.norm(t.get("callee") or "") if t["k"] == "call" else ""
+                if nm.rsplit("::", 1)[-1] in ("take", "replace") :
+                    resets.append(bi)
+                else:
+                    return None
+    return edges, sites_true, resets
+
+
 def run(F, R):
     sm = smod.get(F)
     c = sm.c
@@ -678,17 +744,23 @@ def run(F, R):
                     has_reset = any(v_ is rv and tm_ is None and any(b_ in L_ for L_ in comps_) for v_, b_, tm_ in fs_)
                     if flag is None or has_reset:
                         flag = l
-        if flag is None:
+        optf = _option_flag(rv, rbi) if flag is None else None
+        if flag is None and optf is None:
             R.inconclusive("C18-R4", "flag", "no boolean flag guards the report call")
         else:
-            fterm = rv.trace_local(flag)
-            flag_true = [(a, b) for (a, b, tr) in rv.bool_edges(lambda t: t == fterm, whole=True) if tr]
-            R.check("C18-R4", "report-guarded-by-flag", flag_true and rv.dominated_by_edge(rbi, flag_true), "report only while the flag is set", "the duration is reported without consulting the report-once flag", lib.loc(rv, rbi))
-            sites_true = _flag_sites(rv, c, flag, True, 0, W)
-            sets_true = [b for v_, b, _ in sites_true if v_ is rv]
             comps = rv.sccs()
             inloop = lambda b: any(b in L for L in comps)
-            resets = [bi for v_, bi, tm_ in _flag_sites(rv, c, flag, False, 0, W) if v_ is rv and inloop(bi) and tm_ is None]
+            if flag is not None:
+                fterm = rv.trace_local(flag)
+                flag_true = [(a, b) for (a, b, tr) in rv.bool_edges(lambda t: t == fterm, whole=True) if tr]
+                sites_true = _flag_sites(rv, c, flag, True, 0, W)
+                resets = [bi for v_, bi, tm_ in _flag_sites(rv, c, flag, False, 0, W) if v_ is rv and inloop(bi) and tm_ is None]
+            else:
+                # the flag and the finish time folded into one `Option<SystemTime>`: "set" = assigned Some(..), "reset" = assigned None / taken
+                flag_true, sites_true, resets_all = optf
+                resets = [b for b in resets_all if inloop(b)]
+            R.check("C18-R4", "report-guarded-by-flag", flag_true and rv.dominated_by_edge(rbi, flag_true), "report only while the flag is set", "the duration is reported without consulting the report-once flag", lib.loc(rv, rbi))
+            sets_true = [b for v_, b, _ in sites_true if v_ is rv]
             eq_atom = _eq_target_version(W)
 
             def some_fin_of(v_):
